@@ -732,6 +732,16 @@ func runC15(ctx *Ctx) error {
 			es = append(es, e)
 		}
 		g.Edges = es
+		// kin-openapi's loader overflows the stack (fatal, not recoverable) on a cycle through callbacks:
+		// keep callback -> callback edges acyclic
+		es = nil
+		for _, e := range g.Edges {
+			if e.From >= 0 && g.Nodes[e.From].Kind == "callbacks" && g.Nodes[e.To].Kind == "callbacks" && e.To <= e.From {
+				continue
+			}
+			es = append(es, e)
+		}
+		g.Edges = es
 		// alias cycles cannot be loaded; break them by dropping direct edges that point backwards
 		es = nil
 		for _, e := range g.Edges {
